@@ -53,7 +53,7 @@ def main():
             "guard": "FDTDX_VERIF",
             "enable": "none needed: contracts live in the sidecar (/verif/props, /verif/spec) and the checks import the real functions from /repo/src; no source hooks exist",
             "baseline_off_cmd": "cd /repo && /venv/bin/python -m pytest -ra -q -p no:cacheprovider --timeout=900 --continue-on-collection-errors",
-            "source_commits": json.load(open(os.path.join(VERIF, "known_findings.json"))).get("fix_commits", []) if os.path.exists(os.path.join(VERIF, "known_findings.json")) else [],
+            "source_commits": [],
             "add_only": True,
         },
         "engines": [
@@ -65,7 +65,7 @@ def main():
             }
         ],
         "checks": checks,
-        "notes": "Exit codes of ./check: 0 held (KNOWN-FINDING lines for listed findings), 1 violation (VIOLATION line), 2 undecided (never a violation), 3 crash. See DESIGN.md.",
+        "notes": "No hooks/instrumentation commits exist. Unguarded 'fix:' commits in /repo (genuine defects found by the checks, see known_findings.json): " + ", ".join(json.load(open(os.path.join(VERIF, "known_findings.json"))).get("fix_commits", [])) + ". Exit codes of ./check: 0 held (KNOWN-FINDING lines for listed findings), 1 violation (VIOLATION line), 2 undecided (never a violation), 3 crash. See DESIGN.md.",
         "not_applicable": na,
     }
     with open(os.path.join(VERIF, "MANIFEST.json"), "w") as f:
